@@ -156,6 +156,11 @@ def handle (line : String) : String :=
       | none => s!"ok {b2i (decide (Post52Free r.1))} {showNats (serAll (varRemove r.1))}"
       | some _ => "err"
     | none => "bad-request"
+  | "mag" :: ws =>
+    -- the hypothesis of `positions_within_i32`
+    match ints? ws >>= decOps with
+    | some (ops, []) => toString (runMag {} ops)
+    | _ => "bad-request"
   | "pos" :: ws =>
     match ints? ws >>= decOps with
     | some (ops, []) => showInts ((positions ops).map encMark).flatten
